@@ -178,6 +178,30 @@ func genUserMeta(rng *rand.Rand) ([]string, []string) {
 	return ks, vs
 }
 
+// genSchemaMeta: schema-level metadata as producers really attach it (pandas,
+// application keys) plus keys from the framework's namespace that are NOT the
+// log / pointer markers.
+func genSchemaMeta(rng *rand.Rand) ([]string, []string) {
+	pool := [][2]string{
+		{"pandas", `{"index_columns": [], "columns": [], "pandas_version": "2.2.0"}`},
+		{"ARROW:extension:name", "x"}, {"owner", "team-a"}, {"", ""},
+		{"vgi_rpc.request_id", "schema-level-req"}, {"vgi_rpc.server_id", "schema-level-srv"},
+		{"vgi_rpc.log_message", "not a log: schema-level"}, {"vgi_rpc.location.source", "https://elsewhere.invalid/x"},
+		{"vgi_rpc.method", "m"}, {"vgi_rpc.stream_state#b64", "AAAA"},
+	}
+	n := 1 + rng.IntN(4)
+	perm := rng.Perm(len(pool))
+	ks, vs := []string{"pandas"}, []string{pool[0][1]}
+	for i := 0; i < n; i++ {
+		if pool[perm[i]][0] == "pandas" {
+			continue
+		}
+		ks = append(ks, pool[perm[i]][0])
+		vs = append(vs, pool[perm[i]][1])
+	}
+	return ks, vs
+}
+
 func canonFull(rec arrow.RecordBatch) string {
 	return gen.Canon(rec) + "|schemameta=" + gen.CanonMeta(rec.Schema().Metadata(), nil)
 }
@@ -430,6 +454,7 @@ type streamWitness struct {
 	LogLevels   []string `json:"log_levels,omitempty"`
 	WithSHA     bool     `json:"pointer_has_sha256"`
 	Encoding    string   `json:"content_encoding"`
+	SchemaMeta  string   `json:"schema_level_metadata_keys,omitempty"`
 	StreamB64   string   `json:"fetched_stream_b64"`
 	Expect      string   `json:"model_expects"`
 	Got         string   `json:"got"`
@@ -516,10 +541,22 @@ func armStreams(e *env, reps int) {
 	// shortest first, so the first witness of a signature is a minimal one
 	sort.SliceStable(arrs, func(i, j int) bool { return len(arrs[i]) < len(arrs[j]) })
 	r.Set("stream_arrangements_enumerated", len(arrs))
-	for rep := 0; rep < reps; rep++ {
+	// Every arrangement is served twice per repetition: over a schema without
+	// and over a schema WITH schema-level metadata (a pandas-style key plus keys
+	// that look like framework keys). Schema-level metadata must not change how
+	// the batches of the fetched stream are classified.
+	for rv := 0; rv < reps*2; rv++ {
+		rep, schemaMeta := rv/2, rv%2 == 1
 		for ai, arr := range arrs {
-			rng := r.Rand(2, uint64(rep), uint64(ai))
+			rng := r.Rand(2, uint64(rv), uint64(ai))
 			schema := gen.Schema(rng, gen.SchemaOpt{MaxCols: 3, MinCols: 1, Nested: rep%2 == 1, Dict: rep%2 == 1})
+			smKeys := ""
+			if schemaMeta {
+				ks, vs := genSchemaMeta(rng)
+				md := arrow.NewMetadata(ks, vs)
+				schema = arrow.NewSchema(schema.Fields(), &md)
+				smKeys = strings.Join(ks, ",")
+			}
 			data, recs, levels := buildStream(rng, schema, arr, e)
 			withSHA := (rep+ai)%2 == 0
 			enc := ""
@@ -555,18 +592,31 @@ func armStreams(e *env, reps int) {
 			case nPtr > 0:
 				expect = "error(pointer in fetched stream)"
 				r.Class("stream-with-nested-pointer")
+				if schemaMeta {
+					for i, k := range arr {
+						if k == kPointer && len(dataIdx) > 0 && dataIdx[0] < i {
+							r.Class("schema-metadata:pointer-after-data")
+						}
+					}
+				}
 			case len(dataIdx) == 0:
 				expect = "error(no data batch)"
 				if len(arr) == 0 {
 					r.Class("stream-empty")
 				} else {
 					r.Class("stream-logs-only")
+					if schemaMeta {
+						r.Class("schema-metadata:no-data")
+					}
 				}
 			case len(dataIdx) == 1:
 				expect = fmt.Sprintf("batch#%d", dataIdx[0])
 				r.Class("stream-one-data")
 				if dataIdx[0] != len(arr)-1 {
 					r.Class("stream-log-after-data")
+					if schemaMeta {
+						r.Class("schema-metadata:log-after-data")
+					}
 				}
 				if dataIdx[0] != 0 {
 					r.Class("stream-log-before-data")
@@ -598,7 +648,7 @@ func armStreams(e *env, reps int) {
 					got = fmt.Sprintf("unidentified batch (%d rows)", res.NumRows())
 				}
 			}
-			w := streamWitness{Arrangement: names, LogLevels: levels, WithSHA: withSHA, Encoding: enc, StreamB64: gen.B64(data), Expect: expect, Got: got}
+			w := streamWitness{Arrangement: names, LogLevels: levels, WithSHA: withSHA, Encoding: enc, SchemaMeta: smKeys, StreamB64: gen.B64(data), Expect: expect, Got: got}
 			bad := func(sig, what string) {
 				// Signature = what went wrong + where the returned/offending batch sits
 				// relative to the stream's data batches (not the full arrangement).
@@ -616,6 +666,9 @@ func armStreams(e *env, reps int) {
 					pos = "before-data-batch"
 				}
 				w.Shape = shapeOf(arr)
+				if schemaMeta {
+					pos += ":schema-with-metadata"
+				}
 				r.Violation("stream:"+sig+":"+pos, what, w)
 			}
 			switch {
@@ -645,7 +698,7 @@ func armStreams(e *env, reps int) {
 					bad("wrong-batch", "resolution returned a batch that is none of the stream's data batches")
 				}
 			}
-			r.Case("stream|" + strings.Join(names, ",") + fmt.Sprintf("|sha=%v|%s", withSHA, enc))
+			r.Case("stream|" + strings.Join(names, ",") + fmt.Sprintf("|sha=%v|%s|schemameta=%s", withSHA, enc, smKeys))
 			if rep == 0 && (ai == 7 || ai == 300) {
 				w.StreamB64 = ""
 				r.Sample(w)
@@ -823,6 +876,7 @@ func main() {
 	r.Require("externalized-at-threshold", "externalized-above-threshold", "inline-below-threshold", "externalized-zstd", "externalized-plain",
 		"externalized-with-custom-metadata", "pointer-carries-sha256",
 		"stream-with-nested-pointer", "stream-logs-only", "stream-empty", "stream-one-data", "stream-log-after-data", "stream-log-before-data",
+		"schema-metadata:log-after-data", "schema-metadata:no-data", "schema-metadata:pointer-after-data",
 		"tamper-refused:substitute-valid-stream", "tamper-refused:wrong-sha-one-digit", "tamper-refused:bytes", "missing-sha-resolves", "refused-by-checksum")
 	r.Assume("net/http + httptest on loopback deliver the stored bytes and Content-Encoding header unchanged")
 	r.Assume("batch equality = harness canonical rendering (gen.Canon: schema fingerprint, logical values, batch custom metadata) plus schema-level metadata")
